@@ -6,7 +6,8 @@
 (* same per-edge values and the same likelihood.                               *)
 EXTENDS Naturals, FiniteSets, Sequences, TLC, Emit
 
-CONSTANTS Edges, Vals
+CONSTANTS Edges, Vals,
+          LenVals   \* branch-length values of the null (0 = a length sitting on its lower bound)
 
 Partitions == {P \in SUBSET (SUBSET Edges \ {{}}) :
                  /\ UNION P = Edges
@@ -14,12 +15,13 @@ Partitions == {P \in SUBSET (SUBSET Edges \ {{}}) :
 Refines(A, P) == \A a \in A : \E b \in P : a \subseteq b
 BlockOf(P, e) == CHOOSE b \in P : e \in b
 
-VARIABLES null, nval, alt
-vars == <<null, nval, alt>>
+VARIABLES null, nval, alt, blen
+vars == <<null, nval, alt, blen>>
 
 Init == /\ null \in Partitions
         /\ nval \in [null -> Vals]
         /\ alt \in {A \in Partitions : Refines(A, null) /\ A # null}
+        /\ blen \in [Edges -> LenVals]
 
 (* value every edge must have in the initialised rich function *)
 Expected == [e \in Edges |-> nval[BlockOf(null, e)]]
@@ -28,7 +30,8 @@ DoneT == FALSE
 Report == Emit([act |-> "NestedScope",
                 null |-> {<<b, nval[b]>> : b \in null},
                 alt |-> alt,
-                expected |-> Expected])
+                expected |-> Expected,
+                lengths |-> blen])   \* every edge keeps the null's branch length, whatever its value
 Next == DoneT
 Spec == Init /\ [][Next]_vars
 (* evaluated once per initial state *)
